@@ -50,18 +50,19 @@ def ev_coq(e):
     raise ValueError(e)
 
 
-CRASH_OBS = {"recvs": [], "events": [], "pills": [], "escaped": True, "hang": False, "spawn_started": False,
+CRASH_OBS = {"recvs": [], "events": [], "pills": [], "sends": [], "escaped": True, "hang": False, "spawn_started": False,
              "registered": False, "note": "harness process died: a panic escaped the actor"}
 
 
 def obs_coq(o):
-    return ("{| o_recvs := %s; o_events := %s; o_pills := %s; o_escaped := %s; o_hang := %s; "
+    return ("{| o_recvs := %s; o_events := %s; o_pills := %s; o_sends := %s; o_escaped := %s; o_hang := %s; "
             "o_spawn_started := %s; o_registered := %s |}") % (
         C.clist(["{| or_inc := %s; or_msg := %s; or_snd := %s; or_full := %s |}" % (
             C.cnat(r["inc"]), lmsg_coq(r["msg"]), C.cbool(r["snd"]), C.cbool(r["full"])) for r in o["recvs"]]),
         C.clist([ev_coq(e) for e in o["events"]]),
         C.clist(["{| op_done := %s; op_early := %s; op_reg_at_done := %s |}" % (
             C.cbool(p["done"]), C.cbool(p["early"]), C.cbool(p["reg_at_done"])) for p in o["pills"]]),
+        C.clist([C.cnat(n) for n in o.get("sends", [])]),
         C.cbool(o["escaped"]), C.cbool(o["hang"]), C.cbool(o["spawn_started"]), C.cbool(o["registered"]))
 
 
